@@ -332,13 +332,19 @@ def scenario(sh: Shard, seed, idx, action, t_crash, shape, regime, suspend):
             sh.count("resets_checked_for_endpoints")
             if x.get("task") and not str(x["task"]).startswith("Task-"):
                 sh.count("automatic_resets_checked_for_endpoints")
-            slow = [e_["name"] for e_ in x.get("conn_tasks_before", []) if e_["done_at"] is None or e_["done_at"] > x["t1"] + 1.0]
+            from vlib.aworld import REGIMES
+
+            prompt = 1.0 + 4 * REGIMES[regime][0] + 4 * REGIMES[regime][2]  # plus what the schedule regime may add per step
+            slow = [e_["name"] for e_ in x.get("conn_tasks_before", []) if e_["done_at"] is None or e_["done_at"] > x["t1"] + prompt]
             if slow and x.get("exc") is None:
                 m2 = ":pump-interleaved-reset" if pump_inside(x) else ""
-                sh.violation("C10:reset:tasks-alive" + m2, f"tasks of the connection that async_reset (task {x.get('task')}) let go of were still running 1 s after it returned: {sorted(set(slow))}", dict(wit, reset_task=x.get("task")))
+                sh.violation("C10:reset:tasks-alive" + m2, f"tasks of the connection that async_reset (task {x.get('task')}) let go of were still running {prompt:.1f} s after it returned: {sorted(set(slow))}", dict(wit, reset_task=x.get("task")))
             left = [tr for tr in x.get("conn_endpoints_before", []) if tr.closed_at is None or tr.closed_at > x["t1"] + 0.5]
             if left:
-                m2 = ":pump-interleaved-reset" if pump_inside(x) else ""
+                # an earlier reset of the scenario that interleaved with the pump leaves an orphan attempt
+                # behind (known mechanism): endpoints of that orphan are attributed to it
+                earlier = any(y["api"] == "async_reset" and y["seq0"] <= x["seq0"] and pump_inside(y) for y in mw.api)
+                m2 = ":pump-interleaved-reset" if (pump_inside(x) or earlier) else ""
                 sh.violation("C10:reset:connection-endpoint-open" + m2, f"{len(left)} connection endpoint(s) open when async_reset (task {x.get('task')}, ended with {x.get('exc')}) started were still open 0.5 s after it was over", dict(wit, reset_task=x.get("task"), reset_exc=x.get("exc")))
         late = wat.late_calls()
         if late:
